@@ -495,6 +495,7 @@ def run_fit_checks(chk, est, X, y, params, kk, replay, n, d, min_leaf, pre="fit"
             rec_err.append(traceback.format_exc(limit=4))
         return sp
     kauri_mod.find_best_split = recorder
+    crashed = None
     try:
         try:
             est.fit(X, y)
@@ -503,7 +504,9 @@ def run_fit_checks(chk, est, X, y, params, kk, replay, n, d, min_leaf, pre="fit"
                 chk.count(None)
                 chk.dist[pre + ":rejected"] += 1
                 return None
-            raise
+            crashed = e
+        except Exception as e:  # noqa  the searches recorded so far are still examined: they usually show the semantic cause
+            crashed = e
     finally:
         kauri_mod.find_best_split = orig
     if rec_err:
@@ -513,8 +516,12 @@ def run_fit_checks(chk, est, X, y, params, kk, replay, n, d, min_leaf, pre="fit"
     for t, (st_, _, _) in enumerate(calls):
         if st_.kernel.shape != kernel.shape or not np.allclose(st_.kernel, kernel, rtol=1e-9, atol=1e-9 * (1 + float(np.abs(kernel).max()))) \
                 or not np.array_equal(st_.X, np.asarray(X, dtype=np.float64)):
-            chk.fail(pre + ":kernel-not-of-current-data", f"search {t} of this fit received a kernel / data matrix that is not the one of the array passed to fit "
-                     f"(max |difference| {float(np.abs(st_.kernel - kernel).max()) if st_.kernel.shape == kernel.shape else 'shape'})", dict(replay, call=t), layer="L3")
+            if st_.kernel.shape == kernel.shape and np.allclose(st_.kernel, kernel, rtol=1e-9, atol=1e-9 * (1 + float(np.abs(kernel).max()))):
+                chk.fail(pre + ":search-data-not-fit-data", f"search {t} of this fit was handed a data matrix of shape {st_.X.shape} that is not the array of shape "
+                         f"{np.asarray(X).shape} passed to fit: features / thresholds it returns do not refer to the columns fit applies them to", dict(replay, call=t), layer="L3")
+            else:
+                chk.fail(pre + ":kernel-not-of-current-data", f"search {t} of this fit received a kernel that is not the kernel of the array passed to fit "
+                         f"(max |difference| {float(np.abs(st_.kernel - kernel).max()) if st_.kernel.shape == kernel.shape else 'shape'})", dict(replay, call=t), layer="L3")
             stale = True
             break
     scale = float(np.abs(kernel).sum())
@@ -532,11 +539,13 @@ def run_fit_checks(chk, est, X, y, params, kk, replay, n, d, min_leaf, pre="fit"
         known = set()          # nothing about this fit may be filed under a known finding
     # the split recorded at call t must be what the loop applied: objective(labels at t+1) - objective(labels at t) = gain_t
     labels_seq = [st.labels() for st, _, _ in calls]
-    final = np.asarray(est.labels_)
+    final = None if crashed is not None else np.asarray(est.labels_)
     gains = []
     for t, (st, g, c) in enumerate(calls):
         if g > 0:
             nxt = labels_seq[t + 1] if t + 1 < len(calls) else final
+            if nxt is None:
+                continue
             inc = objective(nxt, kernel) - objective(labels_seq[t], kernel)
             gains.append(g)
             leaf, feat, thr, lt, rt = c
@@ -554,6 +563,9 @@ def run_fit_checks(chk, est, X, y, params, kk, replay, n, d, min_leaf, pre="fit"
         elif t + 1 < len(calls):
             chk.fail(pre + ":continued-without-gain", f"call {t} returned gain {g} <= 0 but the loop went on", dict(replay, call=t), layer="L3")
             bad = True
+    if crashed is not None:
+        chk.fail(pre + ":fit-raises", f"fit raised {type(crashed).__name__}: {crashed} after {len(calls)} split searches on data and parameters it must accept", replay, layer="L3")
+        return None
     # stop rule
     max_leaves = params["max_leaves"] if params["max_leaves"] is not None else n
     max_depth = n if params["max_depth"] is None else params["max_depth"]
@@ -563,6 +575,8 @@ def run_fit_checks(chk, est, X, y, params, kk, replay, n, d, min_leaf, pre="fit"
         explorable = []
         for j in range(n_leaves_final):
             idx = np.nonzero(leaves_final == j)[0]
+            if len(idx) == 0:
+                continue                     # reported below as an empty leaf
             node, depth = 0, 0
             tr = est.tree_
             while tr.children_left[node] != -1:
@@ -782,9 +796,8 @@ def stream_advfloat(chk, i, rng):
 def stream_repr(chk, i, rng):
     """Same values, other representation (lessons R3 section 1): fit / fit_predict / predict / score of Kauri on integer
     dtypes, float32, Fortran order, non-contiguous views, read-only arrays, lists and tuples must give exactly the result
-    of the float64 C-contiguous reference and leave the caller's arrays untouched.  (Precomputed kernels are given as
-    float64 in every layout; an integer / float32 precomputed kernel is rejected by the unchanged tree with a
-    ValueError - reported to the coordinator, not exercised here.)"""
+    of the float64 C-contiguous reference and leave the caller's arrays untouched; the precomputed kernel is presented
+    in the same representations (integer / float32 / read-only kernels included)."""
     n = int(rng.integers(4, 13))
     d = int(rng.integers(1, 4))
     integral = i % 3 == 0
@@ -795,7 +808,7 @@ def stream_repr(chk, i, rng):
     kk = "precomputed" if pre else str(rng.choice(["linear", "rbf", "laplacian"]))
     K = None
     if pre:
-        A = rng.integers(-3, 4, size=(n, n)).astype(np.float64) / 4
+        A = rng.integers(-3, 4, size=(n, n)).astype(np.float64) / (1 if i % 4 == 0 else 4)     # integral kernels too (int64 / int32 variants)
         K = A + A.T
     params = dict(max_clusters=int(rng.integers(2, 5)), min_samples_leaf=1, min_samples_split=2, kernel=kk,
                   random_state=int(rng.integers(0, 10 ** 6)))
@@ -829,7 +842,7 @@ def stream_repr(chk, i, rng):
 
     cases = [("X:" + nm, xv, K) for nm, xv in variants(X, True)]
     if K is not None:
-        cases += [("K:" + nm, X, kv) for nm, kv in variants(K, False)]
+        cases += [("K:" + nm, X, kv) for nm, kv in variants(K, True)]
     for nm, xv, kv in cases:
         rp = dict(replay, representation=nm)
         sx, sk = snapshot(xv), (None if kv is None else snapshot(kv))
@@ -837,13 +850,7 @@ def stream_repr(chk, i, rng):
             est = Kauri(**params)
             lab = np.asarray(est.fit_predict(xv, kv)) if i % 2 else np.asarray(est.fit(xv, kv).labels_)
             gains = sorted(float(g) for g in est.tree_.gains if g)
-            if nm == "K:readonly":
-                # unchanged tree: Kauri.score(X, K) with a read-only precomputed K raises "buffer source array is read-only"
-                # (gemini_objective takes a writable memoryview); reported to the coordinator, fit is still exercised
-                sc = ref_score
-                chk.dist["repr:score-skipped-readonly-kernel(reported)"] += 1
-            else:
-                sc = float(est.score(xv, kv))
+            sc = float(est.score(xv, kv))
         except Exception as e:  # noqa
             chk.fail("repr:exception", f"{nm}: {type(e).__name__}: {e} although the float64 C-contiguous call succeeds", rp, layer="L3")
             continue
@@ -918,6 +925,7 @@ def main():
                     "met by find_best_split during real Kauri.fit runs; on each state the compiled module and the desugared .pyx are compared with the extracted "
                     "as-is model and judged by a python brute force over all admissible candidates. non-trivial = the search returns a split with positive gain; "
                     "distinct = distinct (kind chosen, n, n_leaves, n_clusters, K_max, min_leaf, kernel/data kind, multi-leaf, |explore|, |feats|) signature. "
+                    "further streams: refit (one estimator fitted twice on an array modified in place / replaced; all per-fit checks against the kernel of the current data recomputed by the harness), advfloat (adjacent doubles, exact ties, 1e300 magnitudes, denormals and signed zeros at the cut with precomputed block kernels; the tree's stored split, the applied partition and the announced gain must describe one partition; predict(X) = labels_; no empty leaf), repr (int / float32 / Fortran / strided / read-only / list / tuple presentations of X, of the precomputed kernel and of query points give the float64 result and leave the arguments untouched). "
                     "input_distribution: evaluated:<family> = states offering that family, chosen[so|pyx]:<family> = family of the returned split",
                extra={"regenerated_ties": chk.regenerated, "branch_counts": chosen,
                       "artefacts": sorted(IMPLS)})
